@@ -83,14 +83,35 @@ def cases(tier, seed):
                                     continue
                                 yield {'t': 'protected', 'kind': kind, 'md': with_md, 'name': name, 'spelling': sp,
                                        'method': meth, 'overwrite': ow, 'prelude': prelude}
+    # the handle itself was opened through a path that contains a symbolic link (to the parent, or to the array directory)
+    for kind, names in (('Array', ARRAY_NAMES), ('RaggedArray', RAGGED_NAMES)):
+        for via in ('symlinked_parent', 'symlink_to_array', 'symlink_dotdot'):
+            for name in names:
+                for sp in ('plain', 'Path', 'dot', 'detour', 'parentdetour'):
+                    for meth in METHODS:
+                        yield {'t': 'protected', 'kind': kind, 'md': True, 'name': name, 'spelling': sp,
+                               'method': meth, 'overwrite': meth.startswith('write'), 'prelude': 'none', 'via': via}
     n = 300 if tier == 'quick' else 3000
     for k in range(n):
         yield {'t': 'user', 'kind': 'Array' if k % 2 else 'RaggedArray', 'k': k}
 
 
-def make(env, d, kind, with_md):
+def make(env, d, kind, with_md, via=None):
     D = env.darr
     p = d / 'arr'
+    if via:
+        (d / 'real').mkdir()
+        a, p = make(env, d / 'real', kind, with_md)
+        opener = D.Array if kind == 'Array' else D.RaggedArray
+        if via == 'symlinked_parent':
+            os.symlink(d / 'real', d / 'lnk')
+            return opener(d / 'lnk' / 'arr', accessmode='r+'), p
+        if via == 'symlink_to_array':
+            os.symlink(p, d / 'arrlink')
+            return opener(d / 'arrlink', accessmode='r+'), p
+        (d / 'real' / 'projA').mkdir()
+        os.symlink(d / 'real' / 'projA', d / 'current')
+        return opener(d / 'current' / '..' / 'arr', accessmode='r+'), p
     md = {'k': [1, 2]} if with_md else None
     if kind == 'Array':
         a = D.asarray(p, np.arange(6, dtype='int16').reshape(3, 2), metadata=md, accessmode='r+')
@@ -127,7 +148,8 @@ def run_case(case, env):
     try:
         if case['t'] == 'user':
             return run_user(case, env, res, d)
-        a, p = make(env, d, case['kind'], case['md'])
+        a, p = make(env, d, case['kind'], case['md'], case.get('via'))
+        res.dim('handle_path', case.get('via', 'plain'))
         fn = spell(case['name'], case['spelling'])
         if case.get('prelude') == 'read-open':
             # history: the same name is first opened read-only (allowed), through the same DataDir object
